@@ -146,7 +146,7 @@ def check_C16(c):
         jobs.append(('tr_clicheck', dict(inputs=inputs, model=model, stdin=stdin, subproc=c.rng.random() < 0.05, quiet=c.rng.random() < 0.08)))
     n_cli = len(jobs)
     # (2) Model.errors on all small triple lists and random ones
-    roles = [':instance', ':ARG0', ':foo', ':ARG0-of', ':foo-of', ':ARG0-of-of', ':mod', ':op1', ':op', ':TOP']
+    roles = [':instance', ':ARG0', ':foo', ':ARG0-of', ':foo-of', ':ARG0-of-of', ':mod', ':op1', ':op', ':TOP', ':ARG0abc', ':mod-fo', ':op1xof']
     vs = ['a', 'b', 'c']
     triples = [[s, r, t] for s in vs[:2] for r in roles[:6] for t in ['a', 'b', 'x', None]]
     lists = [[]] + [[t] for t in triples]
